@@ -321,6 +321,20 @@ def check(prop, tier, seed, jobs, worlds=None, wall=None, keep=False):
             os.replace(path, path + ".unreproduced")
     if unreproduced:
         harness += unreproduced
+    stub = None
+    if prop == "C09" and tier == "thorough" and os.environ.get("COMASIM_SKIP_STUB") != "1":
+        # the stub's fidelity is part of what a C09 verdict rests on: real pathos pool vs SimPool on 24 worlds + semantics probes
+        env = dict(os.environ, PYTHONPATH=HERE, PYTHONHASHSEED="0")
+        try:
+            r = subprocess.run([PY, os.path.join(HERE, "selftest", "stub.py"), "24", str(seed + 11)], capture_output=True, text=True,
+                               timeout=1200, env=env, cwd=HERE)
+            last = [ln for ln in r.stdout.strip().split("\n") if ln.startswith("stub fidelity")]
+            stub = {"exit": r.returncode, "summary": last[-1] if last else r.stdout[-300:],
+                    "semantics": [ln for ln in r.stdout.split("\n") if ln.startswith("semantics")]}
+            if r.returncode != 0:
+                harness.append("stub fidelity self-test failed: " + (last[-1] if last else r.stdout[-500:] + r.stderr[-500:]))
+        except subprocess.TimeoutExpired:
+            harness.append("stub fidelity self-test timed out")
     wall_s = time.time() - t0
     n_exec = int(agg["n_exec"])
     evidence = {
@@ -348,7 +362,7 @@ def check(prop, tier, seed, jobs, worlds=None, wall=None, keep=False):
             "late_visibility_differences": int(agg["late_diffs"]),
             "reach_probes": dict(probes), "clause_evaluations": dict(clauses),
             "known_findings_met": {f"{a}|{b}": n for (a, b), (k, n, v) in known_hits.items()},
-            "real_components": REAL, "stub_components": STUB,
+            "real_components": REAL, "stub_components": STUB, "stub_crosscheck_vs_real_pool": stub,
             "shards": nsh, "harness_errors": harness[:5],
             "repo": repo_state(),
         },
